@@ -78,6 +78,7 @@ func (root *Root) AddTypes(types ...Type) (err error) {
 
 	err = root.addTypes(types...)
 	if err == nil {
+		root.assureSchema()
 		err = root.validate()
 	}
 	if err != nil {
